@@ -7,16 +7,17 @@
    nondeterministic - the logged projection `st` resolve the choice.           *)
 EXTENDS MGState, Json, IOUtils, TLC
 
-G == INSTANCE GraphAbs WITH W <- {}
-S == INSTANCE StableAbs WITH W <- {}
+G == INSTANCE GraphAbs WITH W <- {}, MaxIxC <- 3
+S == INSTANCE StableAbs WITH W <- {}, MaxIxC <- 3
 
 Rec == ndJsonDeserialize(IOEnv.TRACE)
 CONSTANT DbgAt          \* debugging aid: 0 normally; k > 0 makes TLC print the state reached before line k
 
 VARIABLES l, kind,
           acyc,      \* TRUE while the container is wrapped in Acyclic<..> (C14)
-          order      \* the topological order Acyclic maintains (nodes_iter), <<>> when not wrapped
-tvars == <<nd, ed, dir, maxix, stamp, ret, pending, l, kind, acyc, order>>
+          order,     \* the topological order Acyclic maintains (nodes_iter), <<>> when not wrapped
+          saved      \* a saved copy of the container (the cover replay forks many calls from one state)
+tvars == <<nd, ed, dir, maxix, stamp, ret, pending, l, kind, acyc, order, saved>>
 
 E == Rec[l]
 IsEv(o) == l <= Len(Rec) /\ E.op = o /\ l' = l + 1
@@ -27,15 +28,15 @@ Has(f) == f \in DOMAIN E
 Bind == /\ ret' = E.ret
         /\ NodeCount' = E.nc /\ EdgeCount' = E.ec
         /\ (IF Has("st") THEN StMatchesN(E.st) ELSE TRUE)
-Same == kind' = kind /\ UNCHANGED <<acyc, order>>
+Same == kind' = kind /\ UNCHANGED <<acyc, order, saved>>
 
-TraceInit == /\ l = 1 /\ kind = "graph" /\ acyc = FALSE /\ order = <<>> /\ nd = <<>> /\ ed = <<>> /\ dir = TRUE /\ maxix = 3
+TraceInit == /\ l = 1 /\ kind = "graph" /\ acyc = FALSE /\ order = <<>> /\ saved = <<>> /\ nd = <<>> /\ ed = <<>> /\ dir = TRUE /\ maxix = 3
              /\ stamp = 0 /\ ret = <<"s", "ok">> /\ pending = {}
 
 TrReset == /\ IsEv("reset")
            /\ kind' = E.kind /\ dir' = E.directed /\ maxix' = E.maxix
            /\ nd' = <<>> /\ ed' = <<>> /\ stamp' = 0 /\ pending' = {} /\ ret' = <<"s", "ok">>
-           /\ acyc' = FALSE /\ order' = <<>>
+           /\ acyc' = FALSE /\ order' = <<>> /\ saved' = <<>>
 
 \* the index a successful insertion returned (StableAbs takes it as a parameter); -1 when the call failed
 RetIx == IF E.ret[1] \in {"ok_i", "i"} THEN E.ret[2] ELSE -1
@@ -73,10 +74,10 @@ TrMap == IsEv("map") /\ (IF IsG THEN G!Map(E.nmap, E.emap) ELSE S!Map(E.nmap, E.
 TrFilterMap == IsEv("filter_map") /\ (IF IsG THEN G!FilterMap(E.nmap, E.emap) ELSE S!FilterMap(E.nmap, E.emap)) /\ Bind /\ Same
 
 (* conversions between the two containers *)
-TrToStable == /\ IsEv("to_stable") /\ IsG /\ kind' = "stable" /\ ret' = E.ret /\ UNCHANGED <<acyc, order>>
+TrToStable == /\ IsEv("to_stable") /\ IsG /\ kind' = "stable" /\ ret' = E.ret /\ UNCHANGED <<acyc, order, saved>>
               /\ UNCHANGED <<nd, ed, dir, maxix, stamp, pending>> /\ Bind
 TrToGraph ==  \* compaction in index order; edges are re-added in index order
-    /\ IsEv("to_graph") /\ ~IsG /\ kind' = "graph" /\ UNCHANGED <<acyc, order>>
+    /\ IsEv("to_graph") /\ ~IsG /\ kind' = "graph" /\ UNCHANGED <<acyc, order, saved>>
     /\ LET ns == Asc(LiveN)   es == Asc(LiveE)
            newIx(i) == Cardinality({j \in LiveN : j < i}) IN
        /\ nd' = [j \in 1 .. Len(ns) |-> nd[ns[j] + 1]]
@@ -95,7 +96,7 @@ WireDoc == [nodes |-> LET s == Asc(LiveN) IN [j \in 1 .. Len(s) |-> nd[s[j] + 1]
             edges |-> [j \in 1 .. Len(ed) |-> IF ed[j].w = -1 THEN <<-1, -1, -1>> ELSE <<ed[j].s, ed[j].t, ed[j].w>>]]
 TrSer == /\ IsEv("ser") /\ ~acyc /\ (E.fmt = "json" => E.doc = WireDoc)
          /\ E.nc = NodeCount /\ E.ec = EdgeCount
-         /\ ret' = E.ret /\ UNCHANGED <<nd, ed, dir, maxix, stamp, pending, kind, acyc, order>>
+         /\ ret' = E.ret /\ UNCHANGED <<nd, ed, dir, maxix, stamp, pending, kind, acyc, order, saved>>
 \* a graph handed back by a successful deserialization of a MUTATED stream must be a well-formed
 \* graph of its type (it is then adopted and every later call is validated against it)
 AdoptOK(st, k) ==
@@ -108,7 +109,7 @@ AdoptOK(st, k) ==
 Reindexed(es) == [j \in DOMAIN es |-> IF es[j].w = -1 THEN VacE ELSE [es[j] EXCEPT !.k = j]]
 TrDe ==
     /\ IsEv("de") /\ ~acyc
-    /\ ret' = E.ret /\ UNCHANGED <<maxix, pending, acyc, order>>
+    /\ ret' = E.ret /\ UNCHANGED <<maxix, pending, acyc, order, saved>>
     /\ IF ~E.mutated
        THEN \* an unmodified stream: Graph <-> StableGraph keep all indices; a stream with vacancies is not a Graph
             IF E.to = "graph" /\ HasVac
@@ -138,17 +139,17 @@ OrderOKN(ord) ==
         les == {e \in 1 .. Len(ed') : ed'[e].w # -1} IN
     /\ {ord[i] : i \in DOMAIN ord} = live /\ Len(ord) = Cardinality(live)
     /\ \A e \in les : PosOf(ord, ed'[e].s) < PosOf(ord, ed'[e].t)
-AcBind == /\ order' = E.order /\ OrderOKN(E.order) /\ E.pos_inc /\ E.atpos_ok /\ acyc' = TRUE /\ kind' = kind
+AcBind == /\ saved' = saved /\ order' = E.order /\ OrderOKN(E.order) /\ E.pos_inc /\ E.atpos_ok /\ acyc' = TRUE /\ kind' = kind
 \* a rejected call changes nothing observable, the order included
-AcRejected == UNCHANGED <<nd, ed, dir, maxix, stamp, pending>> /\ order' = order /\ E.order = order /\ acyc' = acyc /\ kind' = kind
+AcRejected == UNCHANGED <<nd, ed, dir, maxix, stamp, pending, saved>> /\ order' = order /\ E.order = order /\ acyc' = acyc /\ kind' = kind
 
 TrAcWrap ==       \* Acyclic::try_from_graph / TryFrom: accepts exactly the acyclic graphs
     /\ IsEv("ac_wrap") /\ ~acyc /\ dir /\ ret' = E.ret
-    /\ UNCHANGED <<nd, ed, dir, maxix, stamp, pending, kind>>
+    /\ UNCHANGED <<nd, ed, dir, maxix, stamp, pending, kind, saved>>
     /\ IF HasCycle THEN /\ E.ret[1] = "cycle" /\ acyc' = FALSE /\ order' = <<>>
        ELSE /\ E.ret = <<"s", "ok">> /\ acyc' = TRUE /\ order' = E.order /\ OrderOKN(E.order) /\ E.pos_inc /\ E.atpos_ok
 TrAcUnwrap == /\ IsEv("ac_unwrap") /\ acyc /\ acyc' = FALSE /\ order' = <<>> /\ ret' = E.ret
-              /\ UNCHANGED <<nd, ed, dir, maxix, stamp, pending, kind>>
+              /\ UNCHANGED <<nd, ed, dir, maxix, stamp, pending, kind, saved>>
 TrAcAddNode == /\ IsEv("ac_add_node") /\ acyc
                /\ (IF IsG THEN G!AddNode(E.w) ELSE IF E.ret[1] = "i" THEN S!AddNodeAt(E.w, E.ret[2], "i") ELSE S!AddNodeFull)
                /\ Bind /\ AcBind
@@ -182,10 +183,19 @@ AcObsOK(o) ==
     /\ \A i \in DOMAIN o.ac.ranges : LET r == o.ac.ranges[i] IN       \* <<x, y, nodes in get_position(x)..=get_position(y)>>
             r[3] = SubSeq(order, PosOf(order, r[1]), PosOf(order, r[2]))
 
+(* save / restore: the harness keeps a clone and later continues from it (Clone is part of the API) *)
+TrSave == /\ IsEv("save") /\ ~acyc /\ saved' = <<nd, ed, dir, stamp, kind>> /\ ret' = E.ret
+          /\ E.nc = NodeCount /\ E.ec = EdgeCount
+          /\ UNCHANGED <<nd, ed, dir, maxix, stamp, pending, kind, acyc, order>>
+TrRestore == /\ IsEv("restore") /\ ~acyc /\ saved # <<>>
+             /\ nd' = saved[1] /\ ed' = saved[2] /\ dir' = saved[3] /\ stamp' = saved[4] /\ kind' = saved[5]
+             /\ ret' = E.ret /\ pending' = {} /\ UNCHANGED <<maxix, acyc, order, saved>>
+             /\ NodeCount' = E.nc /\ EdgeCount' = E.ec /\ StMatchesN(E.st)
+
 \* the IF makes TLC evaluate ObsOK as a state predicate (otherwise its inner disjunctions are expanded
 \* as alternative ways to build the successor state)
 TrObs == /\ IsEv("obs")
-         /\ IF ObsOK(E) /\ (acyc => AcObsOK(E)) THEN UNCHANGED <<nd, ed, dir, maxix, stamp, ret, pending, kind, acyc, order>> ELSE FALSE
+         /\ IF ObsOK(E) /\ (acyc => AcObsOK(E)) THEN UNCHANGED <<nd, ed, dir, maxix, stamp, ret, pending, kind, acyc, order, saved>> ELSE FALSE
 
 TraceNext ==
     \/ TrReset \/ TrTryAddNode \/ TrAddNode \/ TrTryAddEdge \/ TrAddEdge \/ TrTryUpdateEdge \/ TrUpdateEdge
@@ -193,7 +203,7 @@ TraceNext ==
     \/ TrSetNodeWeight \/ TrSetEdgeWeight \/ TrIndexTwiceNE \/ TrIndexTwiceNN \/ TrNoEffect \/ TrIntoEdgeType
     \/ TrRetainBegin \/ TrRetainVisit \/ TrRetainEnd \/ TrExtend \/ TrMap \/ TrFilterMap
     \/ TrToStable \/ TrToGraph \/ TrObs
-    \/ TrSer \/ TrDe
+    \/ TrSer \/ TrDe \/ TrSave \/ TrRestore
     \/ TrAcWrap \/ TrAcUnwrap \/ TrAcAddNode \/ TrAcTryAddEdge \/ TrAcTryUpdateEdge \/ TrAcBuildAddEdge
     \/ TrAcBuildUpdateEdge \/ TrAcRemoveEdge \/ TrAcRemoveNode
 
